@@ -3,6 +3,7 @@ package checks
 import (
 	"fmt"
 	"math/rand"
+	"sync"
 
 	"github.com/akalin/gopar/gf2p16"
 
@@ -23,15 +24,15 @@ type c11Params struct {
 
 func init() {
 	register(&c11{base{
-		id:    "C11",
-		level: lvlExploration,
-		rule: "each case builds one n x n matrix M of a structured kind (random, vandermonde, cauchy, permutation, triangular, rank-deficient product, repeated/combined rows, P*L*U with zero leading pivots, singular only at the last pivot) plus an n x nc right-hand side N, then compares Inverse, RowReduceForInverse(M,N) and Times with an independent elimination (last-row pivoting) and checks operands are unchanged; a key is (kind, n, nc, singular?); trivial = nothing (every case exercises the oracle)",
+		id:          "C11",
+		level:       lvlExploration,
+		rule:        "each case builds one n x n matrix M of a structured kind (random, vandermonde, cauchy, permutation, triangular, rank-deficient product, repeated/combined rows, P*L*U with zero leading pivots, singular only at the last pivot) plus an n x nc right-hand side N, then compares Inverse, RowReduceForInverse(M,N) and Times with an independent elimination (last-row pivoting) and checks operands are unchanged; a key is (kind, n, nc, singular?); trivial = nothing (every case exercises the oracle)",
 		assumptions: append([]string{"reference: internal/ref/gf16 matrices (own elimination with a different pivot rule, own field product)"}, commonAssumptions...),
 		opts:        core.WorkerOpts{CrashIsViolation: true, WallSeconds: 1800},
 	}})
 }
 
-var c11Kinds = []string{"random", "vandermonde", "cauchy", "permutation", "lower", "upper", "rankdef", "duprow", "comborow", "plu-zero-pivots", "last-pivot", "zerocol", "sparse"}
+var c11Kinds = []string{"zerorow", "random", "vandermonde", "cauchy", "permutation", "lower", "upper", "rankdef", "duprow", "comborow", "plu-zero-pivots", "last-pivot", "zerocol", "sparse"}
 
 func (c *c11) Cases(tier string, seed int64) []core.Case {
 	var cs []core.Case
@@ -58,6 +59,9 @@ func (c *c11) Cases(tier string, seed int64) []core.Case {
 			nc := []int{1, n, n + 8 + r.Intn(9), 24 + r.Intn(8), 1 + r.Intn(2*n+40)}[r.Intn(5)]
 			cs = append(cs, core.MkCase(fmt.Sprintf("%s-n%d-nc%d", k, n, nc), c11Params{k, n, nc, r.Int63()}))
 		}
+	}
+	for i := 0; i < 4; i++ {
+		cs = append(cs, core.MkCase(fmt.Sprintf("concurrent-%d", i), c11Params{"concurrent", 12 + 7*i, 20, r.Int63()}))
 	}
 	return cs
 }
@@ -176,6 +180,18 @@ func c11Build(kind string, n int, r *rand.Rand) gf16.Matrix {
 		for i := 0; i < n; i++ {
 			m.Set(i, cidx, 0)
 		}
+	case "zerorow":
+		// non-zero rows with one or two all-zero rows in between
+		randomize(m)
+		for k := 0; k < 1+r.Intn(2); k++ {
+			z := r.Intn(n)
+			if n > 1 {
+				z = 1 + r.Intn(n-1)
+			}
+			for j := 0; j < n; j++ {
+				m.Set(z, j, 0)
+			}
+		}
 	case "sparse":
 		for i := 0; i < n; i++ {
 			for k := 0; k < 2; k++ {
@@ -210,6 +226,10 @@ func (c *c11) Run(cs core.Case) core.Result {
 	core.Decode(cs, &p)
 	r := core.NewR(cs)
 	rng := rand.New(rand.NewSource(p.Seed))
+	if p.Kind == "concurrent" {
+		c.runConcurrent(r, p, rng)
+		return r.Done()
+	}
 	m := c11Build(p.Kind, p.N, rng)
 	n := gf16.NewMatrix(p.N, p.NC)
 	for i := range n.E {
@@ -289,4 +309,66 @@ func (c *c11) Run(cs core.Case) core.Result {
 	}
 	r.Sample(map[string]interface{}{"kind": p.Kind, "n": p.N, "rhs_columns": p.NC, "seed": p.Seed, "singular": !nonsing})
 	return r.Done()
+}
+
+// runConcurrent: matrices are immutable values, so several goroutines may
+// invert and row-reduce different matrices at the same time.
+func (c *c11) runConcurrent(r *core.R, p c11Params, rng *rand.Rand) {
+	const workers = 12
+	type job struct {
+		m, n   gf16.Matrix
+		inv    gf16.Matrix
+		red    gf16.Matrix
+		nonsng bool
+	}
+	jobs := make([]job, workers*6)
+	for i := range jobs {
+		kind := []string{"random", "vandermonde", "plu-zero-pivots", "lower"}[i%4]
+		m := c11Build(kind, p.N, rng)
+		n := gf16.NewMatrix(p.N, p.NC)
+		for k := range n.E {
+			n.E[k] = uint16(rng.Intn(65536))
+		}
+		inv, ok := m.Solve(gf16.Identity(p.N))
+		red, _ := m.Solve(n)
+		jobs[i] = job{m, n, inv, red, ok}
+	}
+	var mu sync.Mutex
+	var wg sync.WaitGroup
+	for w := 0; w < workers; w++ {
+		wg.Add(1)
+		go func(w int) {
+			defer wg.Done()
+			for rep := 0; rep < 4; rep++ {
+				for i := w; i < len(jobs); i += workers {
+					j := jobs[i]
+					gm, gn := toGopar(j.m), toGopar(j.n)
+					var inv, red gf2p16.Matrix
+					var e1, e2 error
+					pi := core.Protect(func() {
+						inv, e1 = gm.Inverse()
+						red, e2 = gm.RowReduceForInverse(gn)
+					})
+					mu.Lock()
+					r.Count("concurrent_operations", 2)
+					switch {
+					case pi != nil:
+						r.Violate("concurrent-panic", "concurrent Inverse/RowReduceForInverse n=%d: %s", p.N, pi.Msg)
+					case j.nonsng && (e1 != nil || e2 != nil):
+						r.Violate("wrong-result-under-concurrent-use", "n=%d: non-singular matrix reported singular (%v, %v) while %d goroutines work on different matrices", p.N, e1, e2, workers)
+					case j.nonsng:
+						if ok, d := equalsRef(inv, j.inv); !ok {
+							r.Violate("wrong-result-under-concurrent-use", "Inverse n=%d wrong under concurrent use (%d goroutines, different matrices): %s", p.N, workers, d)
+						} else if ok, d := equalsRef(red, j.red); !ok {
+							r.Violate("wrong-result-under-concurrent-use", "RowReduceForInverse n=%d wrong under concurrent use: %s", p.N, d)
+						}
+					}
+					mu.Unlock()
+				}
+			}
+		}(w)
+	}
+	wg.Wait()
+	r.Key("concurrent|n=%d", p.N)
+	r.Sample(map[string]interface{}{"kind": "concurrent", "n": p.N, "goroutines": workers, "matrices": len(jobs)})
 }
